@@ -20,7 +20,7 @@ CLAIMED = {
 }
 
 CLAIMED["C06"] = dict(
-    technique="Coq proof by induction on fuel that the decision tree emitted by the match-compiler model evaluates to the first matching arm with its bindings, for all typed pattern matrices and values (bool/unit/int/string/tuple/enum/struct, nested, variables, wildcards); the model is compared tree-for-tree and name-for-name with the real compile_match output inside coqc, and first-match is evaluated on the real tree",
+    technique="Coq proof by induction on fuel that the decision tree emitted by the match-compiler model evaluates to the first matching arm with its bindings, for all typed pattern matrices and values (bool/unit/int/string/tuple/enum/struct, nested, variables, wildcards); the model is compared tree-for-tree and name-for-name with the real compile_match output inside coqc, and first-match is evaluated on the real tree; end to end: the match sub-matrix (all pattern kinds, escaped string patterns, discarded matches) through both semantics",
     text="compile_match_first_match (16 proof files, no axioms): for every type environment, scrutinee type, list of arms typed against it and well-typed scrutinee value, if the model accepts the match and reaches no panic site, eval_core of the emitted tree equals first_match (same arm, same bindings up to order), Missing when no arm matches; non-exhaustive integer matches are rejected. "
          "The model (strip, branch-variable choice, per-type splits incl. the IndexMap/fallback bookkeeping, gensym threading) is tied to compile_match.rs by exhaustive small and random matrices compiled by the real compiler: the real Core tree must equal the model's tree syntactically, and independently the real tree is checked against first-match on every value.",
     design_ref="DESIGN.md §4 C06",
@@ -35,7 +35,7 @@ CLAIMED["C05"] = dict(
 )
 
 CLAIMED["C10"] = dict(
-    technique="Coq proofs about the literal checker model (exact value, range rejection, print/parse round trip through the Go literal), Go's wrap-around arithmetic and %d rendering; differential correspondence of literal acceptance and emitted Go literal/operator/type text with the real compiler inside coqc",
+    technique="Coq proofs about the literal checker model (exact value, range rejection, print/parse round trip through the Go literal), Go's wrap-around arithmetic and %d rendering; differential correspondence of literal acceptance and emitted Go literal/operator/type text with the real compiler inside coqc; arithmetic programs over all integer types against a Python oracle; float operand types, literal values and literal/literal operations against exact constant folding",
     text="11 pinned theorems (no axioms): an accepted literal denotes the written value and survives the TAST re-parse and Go printing (literal_end_to_end), out-of-range literals are rejected, intN arithmetic in the emitted Go wraps modulo 2^N / division truncates and fails on zero (model of Go), integer to_string is injective decimal. "
          "Tied to the code by compiling one-literal programs (all of 0..299 for 8-bit types, boundaries for all widths, expression and pattern positions) and operator programs for all 8 types and comparing verdicts, Go literal text, operator symbols and Go type names with the model.",
     design_ref="DESIGN.md §4 C10",
@@ -43,7 +43,7 @@ CLAIMED["C10"] = dict(
 )
 
 CLAIMED["C13"] = dict(
-    technique="Coq proof that discovery order and topological order are invariant under every permutation of every import set (the HashSet iteration order), on a model compared with the real discover_packages/topo_sort_packages inside coqc; fresh-process byte-for-byte comparison as the failing-input search",
+    technique="Coq proof that discovery order and topological order are invariant under every permutation of every import set (the HashSet iteration order), on a model compared with the real discover_packages/topo_sort_packages inside coqc; fresh-process byte-for-byte comparison as the failing-input search; fresh-process comparison of all dumps (ast, hir, tast, core, mono, lift, anf, go) and diagnostics for multi-package projects, feature-rich single files, rejected programs with several errors, several extern packages and link histories with several stale packages",
     text="discovery_order_independent and topo_order_independent are proved for all package file systems and all permutations of all import lists (no axioms); the model (work-queue discipline, sort points, error classes) is compared with the real functions on exhaustive 4-package import relations (cycles included) and random layouts with missing/misdeclared packages. "
          "Independently every check compiles generated, corpus and probe projects in several fresh processes and from a re-created directory tree and compares all stage dumps byte for byte.",
     design_ref="DESIGN.md §4 C13",
@@ -51,7 +51,7 @@ CLAIMED["C13"] = dict(
 )
 
 CLAIMED["C15"] = dict(
-    technique="Coq invariant proof over all histories of the artifact state machine (edit/check/build/link) with the hash function an injective parameter; history-level differential correspondence with the real check_package/build_package/read_core/link_cores through real files, inside coqc; inspection of the real .core files after each successful link as the failing-input search",
+    technique="Coq invariant proof over all histories of the artifact state machine (edit/check/build/link) with the hash function an injective parameter; history-level differential correspondence with the real check_package/build_package/read_core/link_cores through real files, inside coqc; inspection of the real .core files after each successful link as the failing-input search; 25 kinds of edits of a dependency (21 observable ones must be refused at link, 4 body-only ones must link) and hash stability of a package with every kind of export across fresh processes",
     text="link_never_mixes_interfaces: for every history, if link accepts a set of cores then each linked package was built against exactly the exported interface its dependencies' linked cores carry (induction over the op list, hash injectivity as the only hypothesis; no axioms). body-only edits keep and interface edits change the hash; single-field corruptions covered by validation are rejected; the unhashed core body is a refutation theorem and a known finding. "
          "Tied to separate.rs/artifact.rs by executing systematic and random histories over three dependency shapes against the real API and comparing success flags and hash equality patterns with the model.",
     design_ref="DESIGN.md §4 C15",
@@ -59,7 +59,7 @@ CLAIMED["C15"] = dict(
 )
 
 CLAIMED["C16"] = dict(
-    technique="Coq proofs: the DFS topological sort model yields a dependency-respecting order (so mutual imports are rejected) and, from the orphan rule + visibility + per-package uniqueness, global coherence of trait impls; differential correspondence of acceptance verdicts with the real compiler on systematic package/impl placements, inside coqc",
+    technique="Coq proofs: the DFS topological sort model yields a dependency-respecting order (so mutual imports are rejected) and, from the orphan rule + visibility + per-package uniqueness, global coherence of trait impls; differential correspondence of acceptance verdicts with the real compiler on systematic package/impl placements, inside coqc; 11 kinds of cross-package references with direct, missing and transitive imports; duplicate impls under plain and self-qualified paths",
     text="at_most_one_impl_per_trait_and_type: for every accepted import graph and every list of impl blocks that passes the orphan rule, the visibility rule and the per-package duplicate check, no two impls share a (trait, type) pair (no axioms) — proved through topo_respects_deps for the DFS model of topo_sort_packages. "
          "The model's predicates (is_local_name / is_local_nominal_type / package_allowed / duplicate checks / cycle detection) are tied to the code by compiling 4-package projects with every placement of an impl of a foreign or own trait for 8 kinds of types and of qualified references, and comparing the accepted / cycle / visibility / orphan / duplicate verdicts.",
     design_ref="DESIGN.md §4 C16",
@@ -68,14 +68,14 @@ CLAIMED["C16"] = dict(
 
 CLAIMED["C01"] = dict(
     category="translation_validation",
-    technique="per-program translation validation with two Coq semantics (Sem/Src.v on the real typed source tree, Sem/GoSem.v on the real emitted Go AST) evaluated in coqc; both semantics validated against outputs recorded from real Go; general pass-correctness theorems open",
+    technique="per-program translation validation with two Coq semantics (Sem/Src.v on the real typed source tree, Sem/GoSem.v on the real emitted Go AST) evaluated in coqc; both semantics validated against outputs recorded from real Go; general pass-correctness theorems open; generators include the position x feature matrix (lib/matrixgen.py: every construct a pass must rewrite in every syntactic position)",
     text='Every run compiles type-directed generated programs (probes in every position, pattern matrices called on value grids, closures, refs, vectors, trait objects, failing operations) and the 74 corpus programs with the real compiler, reads the real TAST and Go AST back and executes both in Coq; stdout and the way the program ends must agree, and corpus programs must reproduce the output recorded from real Go. The unbounded theorem (composition of pass correctness) is not proved; the claimed level is per-program validation with machine-checked executable semantics.',
     design_ref="DESIGN.md §4 C01",
     note=TRUST + " Sem/GoSem.v is a model of Go (slices immutable, no floats, one goroutine schedule); Sem/Src.v is the source-level meaning; both reproduce the recorded real-Go output of 63-66 corpus programs. This is validation per program, not a proof about all programs.",
 )
 CLAIMED["C08"] = dict(
     category="translation_validation",
-    technique="per-program translation validation with two Coq semantics (Sem/Src.v on the real typed source tree, Sem/GoSem.v on the real emitted Go AST) evaluated in coqc; both semantics validated against outputs recorded from real Go; general pass-correctness theorems open",
+    technique="per-program translation validation with two Coq semantics (Sem/Src.v on the real typed source tree, Sem/GoSem.v on the real emitted Go AST) evaluated in coqc; both semantics validated against outputs recorded from real Go; general pass-correctness theorems open; the closure sub-matrix (captures of every kind, closures in struct fields, function values, closures using capture-free closures)",
     text='Closure-focused programs in which each captured variable occurs in exactly one syntactic position of the closure body (match arms incl. default, while condition/body, if, nested closures, tuple, enum match, captured closures and trait objects) are compiled and the real TAST vs real Go AST behaviours compared in Coq. lift_correct is not proved; closures in function-typed positions are a known finding.',
     design_ref="DESIGN.md §4 C08",
     note=TRUST + " Sem/GoSem.v is a model of Go (slices immutable, no floats, one goroutine schedule); Sem/Src.v is the source-level meaning; both reproduce the recorded real-Go output of 63-66 corpus programs. This is validation per program, not a proof about all programs.",
@@ -100,7 +100,7 @@ CLAIMED["C12"] = dict(
 )
 CLAIMED["C04"] = dict(
     category="exploration",
-    technique="Coq theorems for the panic sites that are modelled (scanner indexing, tree building; totality of every model function is by construction) re-checked on each run; the rest of 'never crashes or hangs' is explored: exhaustive short token strings, mutated corpus programs, deep nesting, multi-file projects through pipeline::compile under catch_unwind + watchdog and through the real command-line binary",
+    technique="Coq theorems for the panic sites that are modelled (scanner indexing, tree building; totality of every model function is by construction) re-checked on each run; the rest of 'never crashes or hangs' is explored: exhaustive short token strings, mutated corpus programs, deep nesting, multi-file projects through pipeline::compile under catch_unwind + watchdog and through the real command-line binary; programs of every generator (incl. the matrix), deep unfinished nestings, special Unicode characters and programs that ask for cyclic types go through compile and the command line",
     text="Crash- and hang-freedom of the whole Rust compiler is not a theorem here: only the multi-line scanner (no out-of-bounds read, for all inputs) and the tree builder (total, lossless) are proved. Everything else is exploration with the real code: every input must give success or at least one error diagnostic whose range lies in the text; no panic, signal, or missing answer within 8 s, including the CLI's rendering of diagnostics for multi-file projects and check/build/link on damaged inputs.",
     design_ref="DESIGN.md §4 C04",
     note=TRUST + " The claimed level is exploration with proved parts; polymorphic recursion diverging in mono is a known finding.",
@@ -108,7 +108,7 @@ CLAIMED["C04"] = dict(
 
 CLAIMED["C07"] = dict(
     category="translation_validation",
-    technique="per-program translation validation against the property's own wording (each generic program P is paired with P', every generic definition copied per instantiation with its type parameters substituted textually; real Go AST of P and real typed tree of P' executed by the Coq semantics); Coq model of ty_compact / spec_name_for with a proof that the printed type determines the type, compared with the real Mono instance names inside coqc; Mono residue and instance-set inspection",
+    technique="per-program translation validation against the property's own wording (each generic program P is paired with P', every generic definition copied per instantiation with its type parameters substituted textually; real Go AST of P and real typed tree of P' executed by the Coq semantics); Coq model of ty_compact / spec_name_for with a proof that the printed type determines the type, compared with the real Mono instance names inside coqc; Mono residue and instance-set inspection; the generic sub-matrix (incl. method-level type parameters, generic instances as fields of non-generic types) through both semantics, Mono residue, unspecialised-definition and Go checker checks",
     text="printed_type_determines_the_type (no axioms): for all types with non-empty generic applications, equal compact token sequences imply equal types, by a verified reader of the printed form; a character-level refutation example records that '__' inside type names defeats the joined instance name (known finding). Every run: 23 generic items instantiated at nested concrete types; Go(P) must behave like the substituted P'; Mono(P) must contain no TParam/TVar/TApp, unique names, exactly the reachable instances, and the names the Coq model computes. mono_correct is not proved; non-termination on polymorphic recursion is a known finding.",
     design_ref="DESIGN.md §4 C07",
     note=TRUST + " Sem/GoSem.v is a model of Go and Sem/Src.v the source-level meaning (both validated against outputs recorded from real Go); textual substitution in the generator defines the meaning of an instance. The behaviour part is validation per program, not a proof about all programs.",
@@ -116,14 +116,14 @@ CLAIMED["C07"] = dict(
 
 CLAIMED["C17"] = dict(
     category="translation_validation",
-    technique="per-project translation validation: three-package projects calling every method through all applicable call forms are paired with a trait-free single-package program that calls each impl body directly; the project's real Go AST (Sem/GoSem.v) and the reference's real typed tree (Sem/Src.v) are executed inside coqc and must print the same; single-error negative variants must be rejected by the real typer",
+    technique="per-project translation validation: three-package projects calling every method through all applicable call forms are paired with a trait-free single-package program that calls each impl body directly; the project's real Go AST (Sem/GoSem.v) and the reference's real typed tree (Sem/Src.v) are executed inside coqc and must print the same; single-error negative variants must be rejected by the real typer; imported generic types, suffix-related method names, trait objects passed to like-named methods of other traits",
     text="Random impl matrices over 3 traits (two of them both named Show, in different packages) x 10 receiver types (primitives, tuple, own and foreign structs/enums, generic instances), impls placed wherever the orphan rule allows; forms: Tr::m(x,a) concrete, x.m(a) and Tr::m(x,a) through bounds (single and combined, both orders), Tr::m(d,a) on let-coerced and argument-coerced dyn, inherent x.m(a) and T::m(x,a). Negatives: dyn coercion / UFCS without an impl, ambiguous dot call through two bounds, UFCS through a bound that does not name the trait. No theorem about the typer's resolution.",
     design_ref="DESIGN.md §4 C17",
     note=TRUST + " Sem/GoSem.v is a model of Go (interface assertions by method set) and Sem/Src.v the source-level meaning; validation per program, not a proof about all programs.",
 )
 
 CLAIMED["C18"] = dict(
-    technique="Coq proof that a type-directed JSON decoder reads the text written by the model of derive(ToJson) (object per struct, tag/fields per variant, strings through the %q model of Sem/GoSem.v) back to the value, for all definitions and values; the encoder model is compared byte for byte with what the real compiled program prints (real Go AST executed by Sem/GoSem.v) and the Coq decoder is run on the real text, inside coqc; to_string and JSON well-formedness (Python json) are evaluated on the real output",
+    technique="Coq proof that a type-directed JSON decoder reads the text written by the model of derive(ToJson) (object per struct, tag/fields per variant, strings through the %q model of Sem/GoSem.v) back to the value, for all definitions and values; the encoder model is compared byte for byte with what the real compiled program prints (real Go AST executed by Sem/GoSem.v) and the Coq decoder is run on the real text, inside coqc; to_string and JSON well-formedness (Python json) are evaluated on the real output; every spelling of the derive attribute; variant names shared between enums",
     text="to_json_decodes_back_to_the_value (no axioms): for all struct/enum definitions with distinct quote-free variant names, all values with JSON-safe strings (printable ASCII and \\b \\t \\n \\f \\r) and all continuations not starting with a digit, dec (enc v ++ rest) = (v, rest); control characters are a refutation example and a known finding. "
          "Every run: 1-4 derived definitions per program (all integer types, bool, string, unit, nested and recursive types, field names like tag/fields/to_json), 3-6 values each; the model must print exactly the real text, the Coq decoder must recover the value from the real text, to_string must equal the documented rendering, Python's json must accept and decode the text; 13 unsupported or hostile definitions must give a diagnostic or working code.",
     design_ref="DESIGN.md §4 C18",
@@ -131,7 +131,7 @@ CLAIMED["C18"] = dict(
 )
 
 CLAIMED["C11"] = dict(
-    technique="Coq proof that, for the model of the Pratt loop (expr_bp, arg_list, binding powers) and of the call re-association in lowering, parsing the minimal-parentheses rendering of any tree of the class ok returns that tree (induction over trees, 'for all sufficiently large fuel'); pinned theorem on the binding-power table; the model and the class are compared with the real parser+lowering on the same token strings inside coqc; literal fidelity evaluated on the real parser and through Sem/GoSem.v",
+    technique="Coq proof that, for the model of the Pratt loop (expr_bp, arg_list, binding powers) and of the call re-association in lowering, parsing the minimal-parentheses rendering of any tree of the class ok returns that tree (induction over trees, 'for all sufficiently large fuel'); pinned theorem on the binding-power table; the model and the class are compared with the real parser+lowering on the same token strings inside coqc; literal fidelity evaluated on the real parser and through Sem/GoSem.v; every literal kind in 47 expression positions; the Go text of every string literal lexed with Go's rules (bytes vs code points, no byte order mark)",
     text="print_then_parse_is_identity: for every tree whose callees are atoms/calls/field accesses and whose prefix operands carry no call on their postfix chain, parse_fuel f (print e) = Some e for all large f (no axioms); binding_powers_as_documented; refutation examples for the three association deviations outside the class (known findings). "
          "Tied to parser/src/expr.rs and ast/src/lower.rs by running the model and the real parser on all operator pairs/triples, prefix x binary, calls, fields and 1500+ random trees (every one must be in ok, parse to itself in both, and print to the same tokens); literals: every escape spelling, multi-line strings (LF/CRLF), integer and float spellings, printed output of compiled programs.",
     design_ref="DESIGN.md §4 C11",
@@ -140,14 +140,14 @@ CLAIMED["C11"] = dict(
 
 CLAIMED["C14"] = dict(
     category="translation_validation",
-    technique="per-project validation: generated multi-package projects are compiled whole (pipeline::compile) and separately (check/build through interface and core JSON files in random topological orders, then link_cores in build or random order) by the real code; acceptance verdicts and check/build interface hashes are compared, and the two real Go ASTs are executed by Sem/GoSem.v inside coqc and must behave alike; the artifact-consistency theorem of C15 (link never mixes interfaces) is re-checked",
+    technique="per-project validation: generated multi-package projects are compiled whole (pipeline::compile) and separately (check/build through interface and core JSON files in random topological orders, then link_cores in build or random order) by the real code; acceptance verdicts and check/build interface hashes are compared, and the two real Go ASTs are executed by Sem/GoSem.v inside coqc and must behave alike; the artifact-consistency theorem of C15 (link never mixes interfaces) is re-checked; both outputs are also checked by the Go checker model; library packages have pass-heavy bodies and Main uses indirect dependencies implicitly",
     text="6 dependency shapes over up to 3 libraries + Main, each library exporting a struct, an enum with struct payload, a generic struct with inherent method, a trait with own/foreign impls, generic and bounded generic functions; Main with impls of foreign traits, cross-package generics, dyn coercions and, at random, a second source file with or without its own import line (ill-formed variants must be rejected both ways). No theorem that link o build equals the whole-program pipeline.",
     design_ref="DESIGN.md §4 C14",
     note=TRUST + " Sem/GoSem.v is a model of Go; Go texts of the two pipelines differ in declaration order and temporaries, so behaviour (stdout and ending) is compared, not text.",
 )
 
 CLAIMED["C03"] = dict(
-    technique="Coq: an executable type-consistency checker over a typed mirror of the Core/Mono/Lift/ANF trees, with proved soundness for closedness and for absence of generic residue; the real stage trees (Rust Debug dumps, every node with the type the compiler put on it) of generated, corpus and multi-package programs are translated node for node and checked inside coqc; single type errors injected into generated programs must be rejected by the real typer",
+    technique="Coq: an executable type-consistency checker over a typed mirror of the Core/Mono/Lift/ANF trees, with proved soundness for closedness and for absence of generic residue; the real stage trees (Rust Debug dumps, every node with the type the compiler put on it) of generated, corpus and multi-package programs are translated node for node and checked inside coqc; single type errors injected into generated programs must be rejected by the real typer; the matrix programs are checked at all four stages; 59 kinds of injected type errors, also inside an imported package, must be rejected",
     text="accepted_trees_are_closed and accepted_mono_trees_have_no_residue (no axioms): whatever check accepts has every variable bound by an enclosing binder/parameter, a top-level function or a listed builtin, and after monomorphisation no TParam/TVar/TApp on any node. check additionally enforces binder types, instance matching of top-level functions, and let/if/while/match/call/tuple/projection/array/closure/operator/dyn typing and declared return types. "
          "Every run checks all four stage trees of ~190 (thorough ~1800) accepted programs and requires rejection of 32 kinds of injected type errors.",
     design_ref="DESIGN.md §4 C03",
@@ -156,7 +156,7 @@ CLAIMED["C03"] = dict(
 
 CLAIMED["C20"] = dict(
     category="exploration",
-    technique="exploration of the real query functions (hover_type, dot_completions, colon_colon_completions) under catch_unwind at every cursor position of small texts and sampled positions of generated programs, prefixes and mutations; hover on binders compared with the typed-tree dump; completion items judged against the declarations of generated incomplete programs. No model of the query layer: only the token/tree losslessness it relies on is a theorem (C12)",
+    technique="exploration of the real query functions (hover_type, dot_completions, colon_colon_completions) under catch_unwind at every cursor position of small texts and sampled positions of generated programs, prefixes and mutations; hover on binders compared with the typed-tree dump; completion items judged against the declarations of generated incomplete programs. No model of the query layer: only the token/tree losslessness it relies on is a theorem (C12); hover on pattern/closure/function binders and on expressions of every call form against types known by construction; every offered completion item is inserted and compiled",
     text="Crash-freedom at all (line, column) incl. positions outside the text; hover on every let binder of generated programs with inference-heavy statements must print the type of the typed tree; completions after p.<prefix>, Enum::<prefix>, Type::<prefix> must name declared fields/methods/variants with the right prefix and field type and omit no field. This is exploration, not proof.",
     design_ref="DESIGN.md §4 C20",
     note=TRUST + " The proof technique does not reach the query layer (it is glue over the typer's side tables); the claimed level is exploration.",
@@ -164,7 +164,7 @@ CLAIMED["C20"] = dict(
 
 CLAIMED["C02"] = dict(
     category="translation_validation",
-    technique="per-program validation with a Coq-defined checker for the emitted Go subset (go_wf: derives types from declarations as Go does and reports undeclared/duplicate names, ill-typed calls, assignments, returns, literals and operators, unused locals and imports) evaluated in coqc on the real Go AST, plus an independent Go lexer (automatic semicolon insertion) and parser that must map the emitted text back to that AST",
+    technique="per-program validation with a Coq-defined checker for the emitted Go subset (go_wf: derives types from declarations as Go does and reports undeclared/duplicate names, ill-typed calls, assignments, returns, literals and operators, unused locals and imports) evaluated in coqc on the real Go AST, plus an independent Go lexer (automatic semicolon insertion) and parser that must map the emitted text back to that AST; the matrix, Go-keyword names for every kind of entity and Go's constant-expression rule (Sem/GoConst.v) are part of the stream",
     text="Every accepted program from all generators of this suite, the corpus and multi-package projects: the Go text must parse (Go lexical rules, semicolon insertion, operator precedence, literal escapes) to exactly the AST the backend built, and go_wf of that AST must be empty. Pinned theorem: an accepted file declares each top-level name once (no axioms); examples show each finding class is reported. go_wf is a model of the Go front end, validated on the corpus recorded from real Go (058's compile error is reproduced and is a known finding).",
     design_ref="DESIGN.md §4 C02",
     note=TRUST + " lib/goparse.py (Python) is the text-to-tree tie and is trusted to follow the Go specification for the emitted subset; go_wf does not cover Go rules outside that subset.",
